@@ -6,7 +6,7 @@
      Part 3 (C09): the recovered scalar of a sender-built owned output is the secret of the sender's one-time key;
      Part 4: a second toy instance of EdLaws (Z/l with a LENIENT decoder, so that H_bytes and non-canonical keys decode), used
              for the non-vacuity Examples of Part 2 and for the witness that Part 1 needs an ACCEPTED spend key. *)
-From MRS Require Export Proofs.ScanProofs Proofs.EcdhProofs Proofs.EdToy.
+From MRS Require Export Proofs.ScanProofs Proofs.EcdhProofs Proofs.ScanToy.
 Open Scope Z_scope.
 
 Section EndToEnd.
@@ -304,3 +304,191 @@ Proof.
 Qed.
 
 End EndToEnd.
+
+(* ================================================================================================================================ *)
+(* Part 4: a toy instance of EdLaws with a LENIENT decoder: Z/l, generator 1, compress = 32-byte little-endian, decompress = the
+   little-endian integer of ANY 32 bytes reduced mod l (so H_bytes decodes, and 5 + l is a non-canonical encoding of the point 5).
+   Consistency of the hypotheses only; says nothing about Ed25519.                                                                    *)
+Definition toy2_decompress (b : bytes) : option Z :=
+  if Nat.eqb (List.length b) 32 then Some (le2z b mod ell) else None.
+
+Definition toy2_ops : EdOps := {|
+  point := Z;
+  pzero := 0;
+  padd := fun a b => (a + b) mod ell;
+  pneg := fun a => (- a) mod ell;
+  smul := fun k a => (k * a) mod ell;
+  G := 1;
+  compress := fun a => z2le 32 a;
+  decompress := toy2_decompress;
+  peqb := Z.eqb;
+  valid := fun a => 0 <= a < ell;
+  tors := fun _ => 0
+|}.
+
+Lemma toy2_laws : EdLaws toy2_ops.
+Proof.
+  pose proof ell_lt as Hl. pose proof ell_nz as Hnz. pose proof ell_big as Hbig.
+  constructor; cbn [point pzero padd pneg smul G compress decompress peqb valid tors toy2_ops].
+  - lia.
+  - lia.
+  - intros P Q _ _. now apply Z.mod_pos_bound.
+  - intros P _. now apply Z.mod_pos_bound.
+  - intros k P _. now apply Z.mod_pos_bound.
+  - intros P Q R _ _ _. rewrite Z.add_mod_idemp_r, Z.add_mod_idemp_l by exact Hnz. f_equal. lia.
+  - intros P Q _ _. f_equal. lia.
+  - intros P HP. rewrite Z.add_0_r. now apply Z.mod_small.
+  - intros P HP. rewrite Z.add_mod_idemp_r by exact Hnz. rewrite Z.add_opp_diag_r. now apply Z.mod_0_l.
+  - intros P _. now apply Z.mod_0_l.
+  - intros P HP. rewrite Z.mul_1_l. now apply Z.mod_small.
+  - intros a b P _. rewrite <- Z.add_mod by exact Hnz. f_equal. lia.
+  - intros a b P _. rewrite Z.mul_mod_idemp_r by exact Hnz. f_equal. lia.
+  - intros a P _. rewrite <- (Z.sub_0_l (a * P mod ell)), Zminus_mod_idemp_r. f_equal. lia.
+  - rewrite Z.mul_1_r. now apply Z.mod_same.
+  - intros a b. now rewrite !Z.mul_1_r.
+  - intros P _. apply z2le_length.
+  - intros P HP. unfold toy2_decompress. rewrite z2le_length, le2z_z2le32 by lia. cbn [Nat.eqb].
+    f_equal. now apply Z.mod_small.
+  - intros b P. unfold toy2_decompress. destruct (Nat.eqb _ _); [|discriminate]. intros H. injection H as <-.
+    apply Z.mod_pos_bound. lia.
+  - intros P Q _ _. apply Z.eqb_eq.
+  - intros _. lia.
+  - intros _. now apply Z.mod_0_l.
+Qed.
+
+(* the toy hash-to-scalar has values in [0, l) *)
+Lemma toyHs_range m : 0 <= toyHs m < ell.
+Proof.
+  pose proof ell_lt as Hl. pose proof ell_big as Hbig. unfold toyHs. assert (H1 : 0 <= 1 < ell) by lia. revert H1. generalize 1.
+  induction m as [|x r IH]; intros acc Hacc; cbn [fold_left]; [exact Hacc|].
+  apply IH. apply Z.mod_pos_bound. lia.
+Qed.
+
+(* ---- a RingCT transaction built with Spec/Sender.v: position 0 to subaddress (0,1) under an additional key, untagged, compact
+   ecdh entry, amount 2^64-1; position 1 to the primary address under the main key, tagged, legacy ecdh entry, amount 12345, mask l-1 *)
+Definition t2_v : Z := 3.
+Definition t2_s : Z := 5.
+Definition t2_Sp : @point toy2_ops := @smul toy2_ops t2_s (@G toy2_ops).
+Definition t2_Sb : bytes := @compress toy2_ops t2_Sp.
+Definition t2_Hp : @point toy2_ops := le2z Ed25519.H_bytes mod ell.
+Definition t2_d0 := @wallet_address toy2_ops toyHs t2_v t2_Sp 0 1.
+Definition t2_d1 := @wallet_address toy2_ops toyHs t2_v t2_Sp 0 0.
+Definition t2_s0 := @send toy2_ops toyHs toyHb 13 t2_d0 0.
+Definition t2_s1 := @send toy2_ops toyHs toyHb 11 t2_d1 1.
+Definition t2_main : bytes := @compress toy2_ops (sn_key t2_s1).
+Definition t2_add0 : bytes := @compress toy2_ops (sn_key t2_s0).
+Definition t2_P0 : bytes := @compress toy2_ops (sn_onetime t2_s0).
+Definition t2_P1 : bytes := @compress toy2_ops (sn_onetime t2_s1).
+Definition t2_a0 : N := (2 ^ 64 - 1)%N.
+Definition t2_y0 : Z := gen_commitment_mask toyHs (sn_shared t2_s0).
+Definition t2_e0 : ecdh := EBulletproof (sender_compact toyHb t2_a0 (sn_shared t2_s0)).
+Definition t2_C0 : @point toy2_ops := @pedersen toy2_ops t2_Hp t2_y0 t2_a0.
+Definition t2_a1 : N := 12345%N.
+Definition t2_y1 : Z := ell - 1.
+Definition t2_e1 : ecdh :=
+  EStandard (fst (sender_legacy toyHs t2_a1 t2_y1 (sn_shared t2_s1))) (snd (sender_legacy toyHs t2_a1 t2_y1 (sn_shared t2_s1))).
+Definition t2_C1 : @point toy2_ops := @pedersen toy2_ops t2_Hp t2_y1 t2_a1.
+Definition t2_o0 : txout := mk_txout 0 (TKey t2_P0).
+Definition t2_o1 : txout := mk_txout 0 (TTagged t2_P1 (b2n (sn_tag t2_s1))).
+Definition t2_fields : list subfield := [TxPublicKey t2_main; AdditionalPublicKey [t2_add0]].
+Definition t2_prefix : txprefix := mk_prefix 2 0 [] [t2_o0; t2_o1] (enc_fields t2_fields).
+Definition t2_base : rct_base :=
+  mk_base RClsag 0 [] [t2_e0; t2_e1] [@compress toy2_ops t2_C0; @compress toy2_ops t2_C1].
+Definition t2_scan := @prefix_check_outputs toy2_ops toyHs toyHb t2_v t2_Sb 0 1 0 2 t2_prefix (Some t2_base).
+
+(* boolean views of a scan result: vm_compute is only run on goals whose types do not mention the instance (the normal form of
+   the record of operations is huge), so "r = SOk .." is obtained from a computed boolean *)
+Definition sres_ok {A} (r : sres A) : bool := match r with SOk _ => true | _ => false end.
+Definition sres_nil {A} (r : sres (list A)) : bool := match r with SOk [] => true | _ => false end.
+Lemma sres_ok_spec {A} (r : sres A) : sres_ok r = true -> exists l, r = SOk l.
+Proof. destruct r as [l|e|]; try discriminate. intros _. now exists l. Qed.
+Lemma sres_nil_spec {A} (r : sres (list A)) : sres_nil r = true -> r = SOk [].
+Proof. destruct r as [[|x l]|e|]; try discriminate. reflexivity. Qed.
+Definition res_list {A} (r : res (list A)) : list A := match r with Ok l => l | _ => [] end.
+Definition t2_table : table := res_list (@checker_new toy2_ops toyHs t2_v t2_Sb 0 1 0 2).
+
+(* observable part: position, index, matched key, amount(), blinding_factor(), commitment() *)
+Definition t2_view (r : sres (list (@owned toy2_ops))) : option (list (N * index * bytes * option N * option Z * option Z)) :=
+  match r with
+  | SOk l => Some (map (fun w => (ow_pos w, ow_index w, ow_key w, @owned_amount toy2_ops w, @owned_blinding_factor toy2_ops w,
+                                  @owned_commitment toy2_ops w)) l)
+  | _ => None
+  end.
+
+(* the scan returns the sender's amounts, masks and commitments *)
+Lemma t2_scan_result :
+  t2_view t2_scan = Some [(0%N, (0%N, 1%N), t2_add0, Some t2_a0, Some t2_y0, Some t2_C0);
+                          (1%N, (0%N, 0%N), t2_main, Some t2_a1, Some t2_y1, Some t2_C1)].
+Proof. vm_compute. reflexivity. Qed.
+
+(* every hypothesis of sender_amount_recovered holds for both outputs of this transaction (the no-other-match hypothesis of
+   position 0, which uses the additional key, is discharged through check_key_none_no_match) *)
+Lemma t2_hypotheses :
+  @valid toy2_ops t2_Sp /\ (exists l, t2_scan = SOk l) /\
+  @raw_try_parse (@valid_pk_b toy2_ops) (extra t2_prefix) = Ok t2_fields /\ tx_pubkey t2_fields = Some t2_main /\
+  @decompress toy2_ops Ed25519.H_bytes = Some t2_Hp /\ rb_type t2_base <> RNull /\
+  (nth_error (outputs t2_prefix) 0 = Some t2_o0 /\ nth_error (adds_of t2_fields) 0 = Some t2_add0 /\
+   (forall idx2, in_ranges 0 1 0 2 idx2 -> ~ @matches toy2_ops toyHs toyHb t2_v t2_Sb 0%N t2_o0 t2_main idx2) /\
+   nth_error (rb_ecdh t2_base) 0 = Some t2_e0 /\ sender_ecdh toyHs toyHb (sn_shared t2_s0) t2_a0 t2_y0 t2_e0 /\
+   (t2_a0 < 2 ^ 64)%N /\
+   exists c0, nth_error (rb_out_pk t2_base) 0 = Some c0 /\ @decompress toy2_ops c0 = Some t2_C0) /\
+  (nth_error (outputs t2_prefix) 1 = Some t2_o1 /\
+   nth_error (rb_ecdh t2_base) 1 = Some t2_e1 /\ sender_ecdh toyHs toyHb (sn_shared t2_s1) t2_a1 t2_y1 t2_e1 /\
+   (t2_a1 < 2 ^ 64)%N /\
+   exists c1, nth_error (rb_out_pk t2_base) 1 = Some c1 /\ @decompress toy2_ops c1 = Some t2_C1).
+Proof.
+  split; [vm_compute; split; [discriminate|reflexivity]|].
+  split. { apply sres_ok_spec. vm_compute. reflexivity. }
+  split; [vm_compute; reflexivity|]. split; [reflexivity|]. split; [vm_compute; reflexivity|]. split; [discriminate|]. split.
+  - split; [reflexivity|]. split; [reflexivity|]. split.
+    { assert (Ht : @checker_new toy2_ops toyHs t2_v t2_Sb 0 1 0 2 = Ok t2_table) by (vm_compute; reflexivity).
+      apply (@check_key_none_no_match toy2_ops toy2_laws toyHs toyHb t2_v t2_Sb 0 1 0 2 t2_table 0%N t2_o0 t2_main).
+      - vm_compute. reflexivity.
+      - exact Ht.
+      - vm_compute. reflexivity. }
+    split; [reflexivity|]. split; [left; split; reflexivity|]. split; [reflexivity|].
+    eexists. split; [reflexivity|]. vm_compute. reflexivity.
+  - split; [reflexivity|]. split; [reflexivity|]. split.
+    { right. split; [reflexivity|]. split; [vm_compute; split; [discriminate|reflexivity]|]. apply toyHs_range. }
+    split; [reflexivity|]. eexists. split; [reflexivity|]. vm_compute. reflexivity.
+Qed.
+
+(* ---- matches_reported needs an ACCEPTED spend key: with the wallet spend key stored as the non-canonical encoding 5 + l of the
+   point 5 (PublicKey has a public field; PublicKey::from_slice rejects such bytes), an output that satisfies the algebraic match
+   condition for the primary address is NOT reported: the table is keyed by the stored bytes, the looked-up candidate
+   P - Hs(rv||0)G is the canonical encoding *)
+Definition t3_S : bytes := z2le 32 (5 + ell).
+Definition t3_main : bytes := @compress toy2_ops (@smul toy2_ops 11 (@G toy2_ops)).
+Definition t3_g : bytes * bytes := match @from_key toy2_ops 3 t3_S t3_main with Ok g => g | _ => ([], []) end.
+Definition t3_P : bytes := match @one_time_key toy2_ops toyHs t3_g 0 with Ok P => P | _ => [] end.
+Definition t3_o : txout := mk_txout 7 (TKey t3_P).
+Definition t3_prefix : txprefix := mk_prefix 1 0 [] [t3_o] (enc_fields [TxPublicKey t3_main]).
+
+Lemma matches_reported_unaccepted_spend_key_refuted :
+  exists (E : EdOps) (LW : EdLaws E) (Hs : hs_fun) (Hb : bytes -> bytes) v S a b c d p rct fields main o idx,
+    pk_from_slice S <> Ok S /\
+    prefix_check_outputs Hs Hb v S a b c d p rct = SOk [] /\
+    raw_try_parse valid_pk_b (extra p) = Ok fields /\ tx_pubkey fields = Some main /\
+    nth_error (outputs p) 0 = Some o /\ in_ranges a b c d idx /\ matches Hs Hb v S 0%N o main idx.
+Proof.
+  exists toy2_ops, toy2_laws, toyHs, toyHb, 3, t3_S, 0%N, 1%N, 0%N, 1%N, t3_prefix, None, [TxPublicKey t3_main], t3_main, t3_o, (0%N, 0%N).
+  split; [vm_compute; discriminate|]. split; [apply sres_nil_spec; vm_compute; reflexivity|]. split; [vm_compute; reflexivity|].
+  split; [reflexivity|]. split; [reflexivity|]. split; [unfold in_ranges; cbn [fst snd]; lia|].
+  exists t3_g, t3_P, t3_S. repeat split; vm_compute; reflexivity.
+Qed.
+
+(* the hypotheses of matches_reported are satisfiable with an ACCEPTED spend key: both outputs of the transaction above match *)
+Definition res_get {A} (dflt : A) (r : res A) : A := match r with Ok x => x | _ => dflt end.
+Definition t2_g0 : bytes * bytes := res_get ([], []) (@from_key toy2_ops t2_v t2_Sb t2_add0).
+Definition t2_g1 : bytes * bytes := res_get ([], []) (@from_key toy2_ops t2_v t2_Sb t2_main).
+Definition t2_S01 : bytes := res_get [] (@get_spend_public_key toy2_ops toyHs t2_v t2_Sb (0%N, 1%N)).
+
+Lemma t2_matches :
+  @pk_from_slice toy2_ops t2_Sb = Ok t2_Sb /\
+  @matches toy2_ops toyHs toyHb t2_v t2_Sb 0%N t2_o0 t2_add0 (0%N, 1%N) /\
+  @matches toy2_ops toyHs toyHb t2_v t2_Sb 1%N t2_o1 t2_main (0%N, 0%N).
+Proof.
+  split; [vm_compute; reflexivity|]. split.
+  - exists t2_g0, t2_P0, t2_S01. repeat split; vm_compute; reflexivity.
+  - exists t2_g1, t2_P1, t2_Sb. repeat split; vm_compute; reflexivity.
+Qed.
